@@ -81,6 +81,7 @@ def qualify_tables(
         scope: Scope | None = None,
         normalize: bool = False,
         columns: Sequence[str | exp.Identifier | exp.ColumnDef] | None = None,
+        quoted: bool = False,
     ) -> None:
         alias = expression.args.get("alias") or exp.TableAlias()
 
@@ -90,11 +91,14 @@ def qualify_tables(
         elif not alias.name:
             new_alias_name = target_alias or next_alias_name()
             if normalize and target_alias:
-                new_alias_name = normalize_identifiers(new_alias_name, dialect=dialect).name
+                # A quoted (case-sensitive) table name keeps its spelling as the implicit alias
+                new_alias_name = normalize_identifiers(
+                    exp.to_identifier(new_alias_name, quoted=quoted or None), dialect=dialect
+                ).name
         else:
             return
 
-        alias.set("this", exp.to_identifier(new_alias_name))
+        alias.set("this", exp.to_identifier(new_alias_name, quoted=quoted or None))
 
         if columns:
             alias.set(
@@ -185,6 +189,9 @@ def qualify_tables(
                     target_alias=name or source.name or None,
                     normalize=True,
                     columns=function_columns,
+                    quoted=bool(
+                        isinstance(table_this, exp.Identifier) and table_this.args.get("quoted")
+                    ),
                 )
 
                 source_fqn = ".".join(p.name for p in source.parts)
